@@ -454,6 +454,14 @@ class CharInterp:
             raise AnalysisError(f"E6: unsupported negation at {m.rel}:{n.lineno}")
         if isinstance(n, ast.BoolOp):
             vals = [self.ev(v, env, m) for v in n.values]
+            if any(isinstance(v, bool) for v in vals):
+                if isinstance(n.op, ast.Or) and any(v is True for v in vals):
+                    return True
+                if isinstance(n.op, ast.And) and any(v is False for v in vals):
+                    return False
+                vals = [v for v in vals if not isinstance(v, bool)]
+                if not vals:
+                    return isinstance(n.op, ast.And)
             bs = []
             for node_, v in zip(n.values, vals):
                 if isinstance(v, B):
@@ -545,6 +553,15 @@ class CharInterp:
                     anyc = t.image(recv.any, t.lower_exc) | t.image(recv.first, t.cap_exc)
                     return S(anyc, t.image(recv.first, t.cap_exc, True), recv.empty, False, None,
                              t.image(fnd_of(recv), t.cap_exc, True) | t.image(fnd_of(recv), t.lower_exc, True), fdef(recv))
+                if meth == "startswith" and len(n.args) == 1:
+                    a0 = self.ev(n.args[0], env, m)
+                    if isinstance(a0, S) and a0.finite is not None and len(a0.finite) == 1 and len(next(iter(a0.finite))) == 1:
+                        bit = bits_of_str(next(iter(a0.finite)))
+                        if recv.first == bit and not recv.empty:
+                            return True
+                        if not (recv.first & bit):
+                            return False
+                    return B()
                 if meth in ("isupper", "islower", "isalpha", "isdigit", "startswith", "endswith"):
                     for a in n.args:
                         self.ev(a, env, m)
